@@ -9,6 +9,12 @@ From CV Require Import Geom.Matrix.
 Import ListNotations.
 Open Scope Q_scope.
 
+(** Matrix product with entry-wise [Qred]: Q's arithmetic does not reduce fractions and a sum multiplies the
+    denominators, so an unreduced chain of products grows exponentially.  [mm a b] is [mmul a b] up to [meq]
+    (ImportProofs.mm_meq); every statement about matrices is up to [meq]. *)
+Definition mred (m : mat) : mat := mkM (Qred (ma m)) (Qred (mb m)) (Qred (mc m)) (Qred (md m)) (Qred (me m)) (Qred (mf m)).
+Definition mm (a b : mat) : mat := mred (mmul a b).
+
 (* ------------------------------------------------------------------------------------------------ *)
 (** * Document AST *)
 
@@ -119,16 +125,16 @@ Definition tf_mat (t : tf) : mat :=
   | TfTranslate x y => mkM 1 0 x 0 1 y
   | TfScale sx sy => mkM sx 0 0 0 sy 0
   | TfRotate c s => mkM c (- s) 0 s c 0
-  | TfRotateAbout c s x y => mmul (mmul (mkM 1 0 x 0 1 y) (mkM c (- s) 0 s c 0)) (mkM 1 0 (- x) 0 1 (- y))
+  | TfRotateAbout c s x y => mm (mm (mkM 1 0 x 0 1 y) (mkM c (- s) 0 s c 0)) (mkM 1 0 (- x) 0 1 (- y))
   | TfMatrix a b c d e f => mkM a c e b d f
   | TfSkewX t => mkM 1 t 0 0 1 0
   | TfSkewY t => mkM 1 0 0 t 1 0
   end.
 (** a transform list: leftmost applied last, i.e. the product in order *)
-Definition tfs_mat (ts : list tf) : mat := fold_left (fun m t => mmul m (tf_mat t)) ts mid.
+Definition tfs_mat (ts : list tf) : mat := fold_left (fun m t => mm m (tf_mat t)) ts mid.
 
 Definition attrs_tf (as_ : list attr) : mat :=
-  fold_left (fun m a => match a with ATransform ts => mmul m (tfs_mat ts) | _ => m end) as_ mid.
+  fold_left (fun m a => match a with ATransform ts => mm m (tfs_mat ts) | _ => m end) as_ mid.
 
 (** path data to absolute commands (SVG 1.1 8.3); H/V/m/l resolved against the current point *)
 Fixpoint abs_path (cur start : qpt) (d : list pcmd) : list gcmd :=
@@ -295,14 +301,14 @@ Fixpoint sem_node_gen (byspec : bool) (rules : list rule) (ctm : mat) (inh : sst
   | NGroup tag as_ kids =>
       let e := mk_desc tag as_ in
       let st := spec_style_gen byspec inh rules e anc as_ in
-      let m := mmul ctm (attrs_tf as_) in
+      let m := mm ctm (attrs_tf as_) in
       flat_map (sem_node_gen byspec rules m st (e :: anc)) kids
   | NShape as_ s _ =>
       let e := mk_desc (shape_tag s) as_ in
       let st := spec_style_gen byspec inh rules e anc as_ in
       let g := spec_geom s in
       if visible st && negb (match g with [] => true | _ => false end)
-      then [mkLayer g st (mmul ctm (attrs_tf as_))] else []
+      then [mkLayer g st (mm ctm (attrs_tf as_))] else []
   | NStyle _ => []
   end.
 Definition sem_node := sem_node_gen true.
@@ -319,7 +325,7 @@ Definition vb_mat (d : doc) : mat :=
   | Some (mx, my, w, h) =>
       if Qltb 0 w && Qltb 0 h then
         let s := Qmin (vp_w d / w) (vp_h d / h) in
-        mmul (mmul (mkM 1 0 ((vp_w d - s * w) / 2) 0 1 ((vp_h d - s * h) / 2)) (mkM s 0 0 0 s 0)) (mkM 1 0 (- mx) 0 1 (- my))
+        mm (mm (mkM 1 0 ((vp_w d - s * w) / 2) 0 1 ((vp_h d - s * h) / 2)) (mkM s 0 0 0 s 0)) (mkM 1 0 (- mx) 0 1 (- my))
       else mid
   | None => mid
   end.
@@ -330,7 +336,7 @@ Definition spec_H (d : doc) : Q := vp_h d * mm_per_px.
 
 (** px (y down) -> canvas mm (y up): flip about the canvas height *)
 Definition flip_mat (H : Q) : mat := mkM 1 0 0 0 (-1) H.
-Definition px_to_canvas (d : doc) : mat := mmul (flip_mat (spec_H d)) (mkM mm_per_px 0 0 0 mm_per_px 0).
+Definition px_to_canvas (d : doc) : mat := mm (flip_mat (spec_H d)) (mkM mm_per_px 0 0 0 mm_per_px 0).
 
 Definition doc_rules (d : doc) : list rule := flat_map node_rules (dkids d).
 
@@ -338,7 +344,7 @@ Definition svg_sem_gen (byspec : bool) (d : doc) : Q * Q * list layer :=
   let e := mk_desc "svg" (dattrs d) in
   let rules := doc_rules d in
   let st := spec_style_gen byspec ss_default rules e [] (dattrs d) in
-  let m := mmul (mmul (px_to_canvas d) (vb_mat d)) (attrs_tf (dattrs d)) in
+  let m := mm (mm (px_to_canvas d) (vb_mat d)) (attrs_tf (dattrs d)) in
   (spec_W d, spec_H d, flat_map (sem_node_gen byspec rules m st [e]) (dkids d)).
 Definition svg_sem := svg_sem_gen true.
 
@@ -373,18 +379,29 @@ Record walker := mkW {
 
 (** what Go draws: path in local coordinates and the anchor handed to DrawPath(x, y, path)
     (shapes.go Rectangle / RoundedRectangle / Ellipse, svg.go drawShape) *)
+(** Path.ArcTo canonicalises the radii: circle -> rotation 0; rx < ry -> swapped with the rotation + 90 degrees *)
+Definition garc (rx ry rot : Q) (l s : bool) (p : qpt) : gcmd :=
+  if Qeq_bool rx ry then GA rx ry 0 l s p
+  else if Qltb rx ry then GA ry rx (rot + 90) l s p
+  else GA rx ry rot l s p.
+Definition go_canon (c : gcmd) : gcmd :=
+  match c with GA rx ry rot l s p => garc rx ry rot l s p | _ => c end.
+
 Definition go_rect (w h : Q) : list gcmd :=
   if Qeq_bool w 0 || Qeq_bool h 0 then [] else [GM (0, 0); GL (w, 0); GL (w, h); GL (0, h); GZ].
 Definition go_ellipse (rx ry : Q) : list gcmd :=
   if Qeq_bool rx 0 || Qeq_bool ry 0 then []
-  else [GM (rx, 0); GA rx ry 0 false true (- rx, 0); GA rx ry 0 false true (rx, 0); GZ].
+  else [GM (rx, 0); garc rx ry 0 false true (- rx, 0); garc rx ry 0 false true (rx, 0); GZ].
+(** zero-length LineTo calls are dropped by the path builder: when r = w/2 (or h/2) the straight edges vanish *)
+Definition gline (a b : qpt) : list gcmd := if Qeq_bool (fst a) (fst b) && Qeq_bool (snd a) (snd b) then [] else [GL b].
 Definition go_rounded (w h r0 : Q) : list gcmd :=
   if Qeq_bool w 0 || Qeq_bool h 0 then []
   else if Qeq_bool r0 0 then go_rect w h
   else let sweep := negb (Qltb r0 0) in
        let r := Qmin3 (Qabs r0) (w / 2) (h / 2) in
-       [GM (0, r); GA r r 0 false sweep (r, 0); GL (w - r, 0); GA r r 0 false sweep (w, r);
-        GL (w, h - r); GA r r 0 false sweep (w - r, h); GL (r, h); GA r r 0 false sweep (0, h - r); GZ].
+       [GM (0, r); GA r r 0 false sweep (r, 0)] ++ gline (r, 0) (w - r, 0) ++ [GA r r 0 false sweep (w, r)] ++
+       gline (w, r) (w, h - r) ++ [GA r r 0 false sweep (w - r, h)] ++ gline (w - r, h) (r, h) ++
+       [GA r r 0 false sweep (0, h - r); GZ].
 
 Definition go_shape (s : shape) : qpt * list gcmd :=
   match s with
@@ -395,7 +412,7 @@ Definition go_shape (s : shape) : qpt * list gcmd :=
   | SLine x1 y1 x2 y2 => ((0, 0), [GM (x1, y1); GL (x2, y2)])
   | SPolyline pts => ((0, 0), poly_geom pts false)
   | SPolygon pts => ((0, 0), poly_geom pts true)
-  | SPath d => ((0, 0), abs_path (0, 0) (0, 0) d)
+  | SPath d => ((0, 0), map go_canon (abs_path (0, 0) (0, 0) d))
   end.
 
 (** svg.setStyling.  [v0] = the order of the tree before the fix: CSS rules first, then ALL attributes in
@@ -404,7 +421,7 @@ Definition apply_attr_v0 (st : wstate) (a : attr) : wstate :=
   match a with
   | AProp p => mkWS (apply_prop (wstyle st) p) (wview st)
   | AStyle ps => mkWS (apply_props (wstyle st) ps) (wview st)
-  | ATransform ts => mkWS (wstyle st) (mmul (wview st) (tfs_mat ts))     (* ctx.ComposeView(parseTransform) *)
+  | ATransform ts => mkWS (wstyle st) (mm (wview st) (tfs_mat ts))     (* ctx.ComposeView(parseTransform) *)
   | AClass _ | AId _ => st
   end.
 Definition apply_attr_pres (st : wstate) (a : attr) : wstate :=
@@ -425,7 +442,7 @@ Definition set_styling (v0 : bool) (rules : list rule) (elems : list edesc) (as_
 
 (** Context.DrawPath under CartesianIV: CoordSystemView().Mul(view).Translate(x, y) *)
 Definition draw_mat (H : Q) (view : mat) (xy : qpt) : mat :=
-  mmul (mmul (flip_mat H) view) (mkM 1 0 (fst xy) 0 1 (snd xy)).
+  mm (mm (flip_mat H) view) (mkM 1 0 (fst xy) 0 1 (snd xy)).
 
 Definition wstep (v0 : bool) (H : Q) (w : walker) (ev : event) : walker :=
   match ev with
@@ -461,7 +478,8 @@ Definition go_view0 (d : doc) : mat :=
   match dviewbox d with
   | Some (mx, my, w, h) =>
       if Qltb 0 w && Qltb 0 h
-      then mmul (mkM (go_W d / w) 0 0 0 (go_H d / h) 0) (mkM 1 0 (- mx) 0 1 (- my))
+      then let s := Qmin (go_W d / w) (go_H d / h) in      (* preserveAspectRatio xMidYMid meet *)
+           mm (mm (mkM 1 0 ((go_W d - s * w) / 2) 0 1 ((go_H d - s * h) / 2)) (mkM s 0 0 0 s 0)) (mkM 1 0 (- mx) 0 1 (- my))
       else mkM mm_per_px 0 0 0 mm_per_px 0
   | None => mkM mm_per_px 0 0 0 mm_per_px 0
   end.
@@ -476,7 +494,7 @@ Definition go_view0_v0 (d : doc) : mat :=
   match dviewbox d with
   | Some (x0, y0, x1, y1) =>
       if Qltb 0 (x1 - x0) && Qltb 0 (y1 - y0)
-      then mmul (mkM (go_W_v0 d / (x1 - x0)) 0 0 0 (go_H_v0 d / (y1 - y0)) 0) (mkM 1 0 (- x0) 0 1 (- y0))
+      then mm (mkM (go_W_v0 d / (x1 - x0)) 0 0 0 (go_H_v0 d / (y1 - y0)) 0) (mkM 1 0 (- x0) 0 1 (- y0))
       else mid
   | None => mid
   end.
